@@ -260,6 +260,8 @@ func (node *Union) walkSubtree(visit Visit) error {
 		visit,
 		node.Left,
 		node.Right,
+		node.OrderBy,
+		node.Limit,
 	)
 }
 
@@ -307,6 +309,7 @@ func (node *Insert) walkSubtree(visit Visit) error {
 		node.Columns,
 		node.Rows,
 		node.OnDup,
+		node.Returning,
 	)
 }
 
@@ -331,9 +334,11 @@ func (node *Update) walkSubtree(visit Visit) error {
 		node.Comments,
 		node.TableExprs,
 		node.Exprs,
+		node.From,
 		node.Where,
 		node.OrderBy,
 		node.Limit,
+		node.Returning,
 	)
 }
 
@@ -365,6 +370,7 @@ func (node *Delete) walkSubtree(visit Visit) error {
 		node.Where,
 		node.OrderBy,
 		node.Limit,
+		node.Returning,
 	)
 }
 
@@ -875,7 +881,7 @@ func (node *Execute) Format(buf *TrackedBuffer) {
 }
 
 func (node *Execute) walkSubtree(visit Visit) error {
-	return Walk(visit, node.Using, node.PreparedStatementName)
+	return Walk(visit, node.Using, node.PreparedStatementName, node.Values)
 }
 
 // Format formats the node.
